@@ -36,7 +36,9 @@ void hw_cmp(void)
 {
   MKSET(a, arr, C16_NMAX) MKSET(b, arr2, C16_NMAX)
   uint64_t x = nondet_u64();
-  __CPROVER_assume(g_vtype_aset.m_code >= 1);
+  unsigned char nondet_uchar(void);
+  g_vtype_aset.m_code = nondet_uchar();      /* globals are zero-initialised: give the type code a value */
+  __CPROVER_assume(g_vtype_aset.m_code >= 1 && g_vtype_aset.m_code <= 127);
   a.__base0.m_type = g_vtype_aset; b.__base0.m_type = g_vtype_aset;
   cmp_result ab = value_aset_cmp(&a, &b.__base0), ba = value_aset_cmp(&b, &a.__base0);
   __CPROVER_assert(ab != cmp_result__fail && ba != cmp_result__fail, "two address sets always compare");
